@@ -48,6 +48,8 @@ def cexpr(e):
         return "(VInt %s)" % cz(e)
     if "var" in e:
         return e["var"]
+    if "handle" in e:
+        return "VNone"      # a future object returned as a value: outside the model (params.model_blind: not compared)
     if "tuple" in e:
         return "(VTuple [%s])" % "; ".join(cexpr(x) for x in e["tuple"])
     if "list" in e:
@@ -233,6 +235,8 @@ def pexpr(e):
         return repr(e)
     if "var" in e:
         return e["var"]
+    if "handle" in e:
+        return e["handle"]
     if "tuple" in e:
         return "(" + "".join(pexpr(x) + ", " for x in e["tuple"]) + ")"
     if "list" in e:
